@@ -1,6 +1,7 @@
 pub mod common;
 pub mod c01;
 pub mod c02;
+pub mod c03;
 pub mod c10;
 pub mod c11;
 pub mod c13;
@@ -20,6 +21,7 @@ pub struct PropEntry {
 pub const PROPS: &[PropEntry] = &[
     PropEntry { id: "C01", run: c01::run_check, case: c01::case },
     PropEntry { id: "C02", run: c02::run_check, case: c02::case },
+    PropEntry { id: "C03", run: c03::run_check, case: c03::case },
     PropEntry { id: "C10", run: c10::run_check, case: c10::case },
     PropEntry { id: "C11", run: c11::run_check, case: c11::case },
     PropEntry { id: "C13", run: c13::run_check, case: c13::case },
